@@ -839,7 +839,7 @@ func (ex *Exec) applyGhost(f *frame, st, pre *State, c *Contract, callee *ssa.Fu
 	for _, e := range c.GhostEns {
 		v, err := envPost.trans(e.Expr)
 		if err != nil {
-			ex.note("contract clause does not attach and is not assumed: " + c.Key + ": " + e.Text)
+			ex.oblige(f, st, "requires", shortKey(c.Key)+":ensures-does-not-attach", e.Label, token.NoPos, tFalse, "a clause of the callee's contract no longer attaches ("+err.Error()+"): "+e.Text)
 			continue
 		}
 		ex.assume(st, v.t)
